@@ -378,3 +378,62 @@ func (k *H2Collector) Add(dec *h2wire.Decoder, fs []h2wire.Frame) {
 		}
 	}
 }
+
+// Req is a request a harness client sends.
+type Req struct {
+	Method, Path, Host string
+	Lines              [][2]string // extra header lines in order (names as written; lower-cased for h2)
+	Body               []byte
+}
+
+// SendH1 writes the request as HTTP/1.1 text (Content-Length framing when there is a body).
+func (c *Client) SendH1(r Req) {
+	var sb bytes.Buffer
+	m := r.Method
+	if m == "" {
+		m = "GET"
+	}
+	fmt.Fprintf(&sb, "%s %s HTTP/1.1\r\nHost: %s\r\n", m, r.Path, r.Host)
+	for _, l := range r.Lines {
+		fmt.Fprintf(&sb, "%s: %s\r\n", l[0], l[1])
+	}
+	if len(r.Body) > 0 {
+		fmt.Fprintf(&sb, "Content-Length: %d\r\n", len(r.Body))
+	}
+	sb.WriteString("\r\n")
+	sb.Write(r.Body)
+	c.Write(sb.Bytes())
+}
+
+// StartH2 sends the client preface and the given SETTINGS (ACKs are not sent automatically).
+func (c *Client) StartH2(ss ...h2wire.Setting) {
+	c.Write(append([]byte(h2wire.Preface), h2wire.Settings(ss...)...))
+}
+
+// SendH2 writes HEADERS (+DATA) for the request on the given stream.
+func (c *Client) SendH2(stream uint32, r Req) {
+	m := r.Method
+	if m == "" {
+		m = "GET"
+	}
+	fs := []h2wire.HF{{Name: ":method", Value: m}, {Name: ":scheme", Value: "https"}, {Name: ":authority", Value: r.Host}, {Name: ":path", Value: r.Path}}
+	for _, l := range r.Lines {
+		fs = append(fs, h2wire.HF{Name: asciiLower(l[0]), Value: l[1]})
+	}
+	end := len(r.Body) == 0
+	out := h2wire.Headers(stream, c.Enc.Block(fs...), end, true, nil, -1)
+	if !end {
+		out = append(out, h2wire.Data(stream, r.Body, true, -1)...)
+	}
+	c.Write(out)
+}
+
+func asciiLower(s string) string {
+	b := []byte(s)
+	for i, ch := range b {
+		if ch >= 'A' && ch <= 'Z' {
+			b[i] = ch + 32
+		}
+	}
+	return string(b)
+}
